@@ -1959,10 +1959,7 @@ class C14(fw.Check):
             req["lower"] = table
         if any(has_surrogates(x) for x in strings):
             return []                        # lone surrogates do not survive the JSON protocol
-        # The request travels as JSON text inside a string: the framework keeps every request of a run
-        # in memory, and the nested Python objects of ~70 000 query plans (thorough tier) took ~30 GB -
-        # the run was killed by the kernel when other checks ran on the machine. Same content.
-        return [{"op": "raw", "json": json.dumps(req, ensure_ascii=True, separators=(",", ":"))}]
+        return [req]
 
     def compare(self, case, obs, answers):
         if not answers:
